@@ -30,6 +30,19 @@ impl Bigram {
     pub fn cost_file(&self) -> String {
         self.cost.iter().map(|(r, l, c)| format!("{}/{}\t{}\n", r, l, c)).collect()
     }
+    /// the sum of the ABSOLUTE values of the listed costs that apply to a pair: when it fits 16 bits, no partial sum of the
+    /// dual connector's pre-summed part can leave 16 bits, whatever the split of the template positions
+    pub fn spec_abs(&self, r: usize, l: usize) -> i64 {
+        let mut table: BTreeMap<(&str, &str), i32> = BTreeMap::new();
+        for (a, b, c) in &self.cost { table.insert((a.as_str(), b.as_str()), *c); }
+        let mut sum = 0i64;
+        for p in 0..self.k {
+            let rf: Option<&str> = if r == 0 { Some("") } else { self.right[r - 1].get(p).map(|s| s.as_str()) };
+            let lf: Option<&str> = if l == 0 { Some("") } else { self.left[l - 1].get(p).map(|s| s.as_str()) };
+            if let (Some(a), Some(b)) = (rf, lf) { if let Some(c) = table.get(&(a, b)) { sum += (*c as i64).abs(); } }
+        }
+        sum
+    }
     /// the defining sum, computed here only to materialise matrix.def (the oracle is in Coq)
     pub fn spec(&self, r: usize, l: usize) -> i64 {
         let mut table: BTreeMap<(&str, &str), i32> = BTreeMap::new();
@@ -99,9 +112,18 @@ pub fn gen_bigram_sized(rng: &mut Rng, big_costs: bool, star_listed: bool, nr: u
     }
     // 1 model in 25: one listed feature longer than 4096 bytes (the CSV reader's buffer size)
     if rng.chance(1, 25) {
-        let long: String = std::iter::repeat('L').take(4097 + rng.below(3000) as usize).collect();
+        // (ASCII or three-byte characters after 0-3 ASCII bytes: a chunk of 4096 bytes then ends inside a character)
+        let long: String = if rng.chance(1, 2) { std::iter::repeat('L').take(4097 + rng.below(3000) as usize).collect() }
+            else { let mut t: String = std::iter::repeat('L').take(rng.below(4) as usize).collect(); t.extend(std::iter::repeat('あ').take(1400 + rng.below(900) as usize)); t };
         let p = rng.below(right[0].len() as u64) as usize;
         right[0][p] = long;
+    }
+    // 1 model in 10: at one template position every row of one side is '*' (no feature), the other side keeps its
+    // features there (they still pair with the empty feature of BOS/EOS)
+    if rng.chance(1, 10) {
+        let p = rng.below(k as u64) as usize;
+        let side = if rng.chance(1, 2) { &mut right } else { &mut left };
+        for r in side.iter_mut() { if p < r.len() { r[p] = "*".to_string(); } }
     }
     // occasional duplicate rows (ids sharing all features)
     if nr > 1 && rng.chance(1, 4) { right[nr - 1] = right[0].clone(); }
@@ -136,6 +158,18 @@ pub fn gen_bigram_sized(rng: &mut Rng, big_costs: bool, star_listed: bool, nr: u
         add(rng, a, b, &mut cost);
     }
     add(rng, "UNUSED".into(), "unused".into(), &mut cost);
+    // 1 model in 8 with more than 8 templates: three positions of the first right / left row carry +30000, +30000 and
+    // -30000 (every partial sum of two leaves 16 bits, the sum of the three fits)
+    // (only in models with large costs, i.e. in C07's own stream and the image streams: where two builds of one dual
+    // dictionary are compared, a pre-summed part outside 16 bits would make the -- unordered -- greedy split visible)
+    if big_costs && k >= 9 && right[0].len() > 2 && left[0].len() > 2 && rng.chance(1, 2) {
+        for (p, c) in [(0usize, 30000i32), (1, 30000), (2, -30000)] {
+            let (a, b) = (format!("S{}", p), format!("s{}", p));
+            right[0][p] = a.clone();
+            left[0][p] = b.clone();
+            cost.push((a, b, c));
+        }
+    }
     rng.shuffle(&mut cost);
     Bigram { right, left, cost, k }
 }
